@@ -3,9 +3,12 @@
 (* Input-space model for property C15, part 2: which lambda expression     *)
 (* created a given lambda object.                                          *)
 (*                                                                         *)
-(* A configuration is a parenthesised tuple display containing 1..MaxL     *)
-(* lambda expressions, written left to right (pre-order; leftmost choice,  *)
-(* one derivation per configuration).  For the k-th lambda:                *)
+(* A configuration is one physical line (possibly continued inside         *)
+(* parentheses) holding 1..3 simple statements  TGTs = ( ... )  separated  *)
+(* by semicolons; the tuple displays contain 1..MaxL lambda expressions in *)
+(* all, written left to right (pre-order; leftmost choice, one derivation  *)
+(* per configuration).  For the k-th lambda:                               *)
+(*   sep[k]   "semi": it opens the next statement on the same line         *)
 (*   par[k]   0 = element of the outer tuple, j < k = inside the body of   *)
 (*            lambda j (the body of a lambda with children is the tuple    *)
 (*            (constant, child, child ...))                                *)
@@ -32,9 +35,9 @@ CONSTANTS MaxL,      \* max number of lambdas
           Sigs3,     \* parameter lists for configurations of 3 lambdas
           Ctxs       \* subset of {"mod", "fun"}: statement at module level / inside a function
 
-VARIABLES phase, cx, n, par, brk, span, sig,
+VARIABLES phase, cx, n, par, brk, span, sig, sep,
           text, fl, ll      \* set by Finish: the rendered text, first and last physical line of every lambda
-vars == <<phase, cx, n, par, brk, span, sig, text, fl, ll>>
+vars == <<phase, cx, n, par, brk, span, sig, sep, text, fl, ll>>
 
 SigText(s) == CASE s = "none" -> "" [] s = "x" -> " x" [] s = "y" -> " y" [] s = "xy" -> " x, y"
                 [] s = "xd" -> " x=5" [] s = "va" -> " *a" [] s = "kw" -> " **k" [] s = "po" -> " x, /"
@@ -45,7 +48,7 @@ NameKey(s) == CASE s = "none" -> "|||" [] s = "x" -> "x|||" [] s = "y" -> "y|||"
                 [] s = "ko" -> "|||x" [] s = "xz" -> "x,z|||"
 
 Init == /\ phase = "build" /\ cx \in Ctxs /\ n = 0
-        /\ par = <<>> /\ brk = <<>> /\ span = <<>> /\ sig = <<>>
+        /\ par = <<>> /\ brk = <<>> /\ span = <<>> /\ sig = <<>> /\ sep = <<>>
         /\ text = "" /\ fl = <<>> /\ ll = <<>>
 
 RECURSIVE IsAncOrSelf(_, _)
@@ -53,11 +56,15 @@ IsAncOrSelf(a, k) == IF k = 0 THEN FALSE ELSE (a = k \/ IsAncOrSelf(a, par[k]))
 (* pre-order: the next lambda is a sibling/child on the rightmost path *)
 Parents == IF n = 0 THEN {0} ELSE {0} \cup {a \in 1 .. n : IsAncOrSelf(a, n)}
 
-Add(p, b, sp, sg) ==
+(* sep[k] = "semi": the k-th lambda opens a NEW STATEMENT on the same physical line (`...); T2 = (...`):      *)
+(* several simple statements separated by semicolons share a line, each with its own lambdas               *)
+Add(p, b, sp, sg, se) ==
   /\ phase = "build" /\ n < MaxL /\ p \in Parents
+  /\ (se = "semi" => p = 0 /\ n >= 1)
   /\ sg \in (IF n + 1 >= 3 THEN Sigs3 ELSE Sigs)
   /\ (n + 1 >= 3 => \A k \in 1 .. n : sig[k] \in Sigs3)
   /\ n' = n + 1 /\ par' = Append(par, p) /\ brk' = Append(brk, b) /\ span' = Append(span, sp) /\ sig' = Append(sig, sg)
+  /\ sep' = Append(sep, se)
   /\ UNCHANGED <<phase, cx, text, fl, ll>>
 (* ---- rendering as a token sequence --------------------------------------- *)
 Tok(t, nl, o, c) == [t |-> t, nl |-> nl, open |-> o, close |-> c]
@@ -74,7 +81,18 @@ Render(k) ==
      \o <<Tok("(lambda" \o SigText(sig[k]) \o ":", 0, k, 0)>>
      \o (IF span[k] = "two" THEN <<NL>> ELSE <<Tok(" ", 0, 0, 0)>>)
      \o body \o <<Tok(")", 0, 0, k)>>
-Toks == <<Tok("(", 0, 0, 0)>> \o RenderAll(Children(0)) \o <<Tok(")", 0, 0, 0)>>
+(* statement number of a top-level lambda; the statements are  TGT1 = (...); TGT2 = (...)  on one logical line each *)
+NSemi(c) == Cardinality({j \in 1 .. c : sep[j] = "semi"})
+StmtOf(c) == 1 + NSemi(c)
+RECURSIVE RenderTop(_)
+RenderTop(cs) ==
+  IF cs = <<>> THEN <<Tok(")", 0, 0, 0)>>
+  ELSE LET c == Head(cs)
+       IN (IF sep[c] = "semi" THEN <<Tok("); TGT" \o ToString(StmtOf(c)) \o " = (", 0, 0, 0)>> ELSE <<>>)
+          \o Render(c) \o <<Tok(", ", 0, 0, 0)>> \o RenderTop(Tail(cs))
+Toks == <<Tok("TGT1 = (", 0, 0, 0)>> \o RenderTop(Children(0))
+RECURSIVE Root(_)
+Root(i) == IF par[i] = 0 THEN i ELSE Root(par[i])
 RECURSIVE Cat(_)
 Cat(ts) == IF ts = <<>> THEN "" ELSE Head(ts).t \o Cat(Tail(ts))
 RECURSIVE NlBefore(_, _)
@@ -88,11 +106,12 @@ Finish == /\ phase = "build" /\ n >= 1 /\ phase' = "done"
              IN /\ text' = Cat(ts)
                 /\ fl' = [k \in 1 .. n |-> 1 + NlBefore(ts, PosOpen(ts, k))]   \* line of the `lambda` keyword = co_firstlineno
                 /\ ll' = [k \in 1 .. n |-> 1 + NlBefore(ts, PosClose(ts, k))]
-          /\ UNCHANGED <<cx, n, par, brk, span, sig>>
+          /\ UNCHANGED <<cx, n, par, brk, span, sig, sep>>
 FirstLine(k) == fl[k]
 LastLine(k)  == ll[k]
 
-Next == \/ \E p \in 0 .. MaxL, b \in {"same", "nl"}, sp \in {"one", "two"}, sg \in Sigs \cup Sigs3 : Add(p, b, sp, sg)
+Next == \/ \E p \in 0 .. MaxL, b \in {"same", "nl"}, sp \in {"one", "two"}, sg \in Sigs \cup Sigs3,
+             se \in {"comma", "semi"} : Add(p, b, sp, sg, se)
         \/ Finish
 Spec == Init /\ [][Next]_vars
 
@@ -116,10 +135,12 @@ SelfCandidate == Done => \A i \in 1 .. n : i \in Cand(i) /\ FirstLine(i) <= Last
 ResolvableUnique == Done => \A i \in 1 .. n : Resolvable(i) => ~Twin(i)
 Nesting == Done => \A i \in 1 .. n : par[i] # 0 =>
               FirstLine(par[i]) <= FirstLine(i) /\ LastLine(i) <= LastLine(par[i])
+Statements == Done => \A i \in 1 .. n : sep[i] = "semi" => par[i] = 0 /\ i > 1
 PreOrder == Done => \A i \in 1 .. n - 1 : FirstLine(i) <= FirstLine(i + 1)
 
 Emit == Done =>
   PrintT(ToJson([cx |-> cx, n |-> n, par |-> par, brk |-> brk, span |-> span, sig |-> sig,
+                 sep |-> sep, stmt |-> [i \in 1 .. n |-> StmtOf(Root(i))], nst |-> 1 + NSemi(n),
                  text |-> text,
                  first |-> [i \in 1 .. n |-> FirstLine(i)], last |-> [i \in 1 .. n |-> LastLine(i)],
                  exp |-> [i \in 1 .. n |-> Expected(i)],
